@@ -445,6 +445,129 @@ def w_call_history(item, seed=0, quick=True):
     return t
 
 
+EDITS = ["add_7.5", "set_3_to_100", "mul_0.5", "undo"]
+
+
+def w_shared_arguments(item, seed=0):
+    """The SAME tensor objects handed to several calls, edited in place between the calls (theta.add_(7.5), theta[3] = 100,
+    theta.mul_(0.5), undo; the image / sinogram scaled and overwritten in place): every call must answer for the values
+    its arguments hold NOW (scikit-image at the current values), a result kept from an earlier call must not change, and
+    the arguments must come back unmodified. Then RE-ENTRANT use: theta given as a lazy sized iterable that calls the
+    library again (same shape / other shape / the inverse transform) before it yields a later angle — outer and inner
+    results must equal the results of the same calls made one after the other."""
+    import importlib
+
+    torch, _ = _lib()
+    R = importlib.import_module("quantem.tomography.radon.radon")
+    kind, N = item[0], int(item[1])
+    t = Tally()
+    filt = item[2] if len(item) > 2 else "ramp"
+    base_theta = np.asarray(IRREG, dtype=np.float32)
+
+    def lib(x, T):
+        if kind == "radon":
+            return R.radon_torch(x, theta=T)
+        return R.iradon_torch(x, theta=T, filter_name=filt, circle=True)
+
+    def ref(xv, tv):
+        return _radon_ref(xv, tv) if kind == "radon" else _iradon_ref(xv, tv, filt)
+
+    tol = TOL if kind == "radon" else TOL_IRADON
+    x0 = make_image(("edge",), N, seed) if kind == "radon" else make_sino(("snoise", 0), N, IRREG, seed)
+    # --- one theta object, edited in place between calls
+    for e1 in EDITS[:3]:
+        for e2 in EDITS:
+            T = torch.tensor(base_theta.copy())
+            X = torch.tensor(x0, dtype=torch.float32)
+            kept = []
+            hist = ["call"]
+            ok = True
+            for step, ed in enumerate([None, e1, e2]):
+                if ed == "add_7.5":
+                    T.add_(7.5)
+                elif ed == "set_3_to_100":
+                    T[3] = 100.0
+                elif ed == "mul_0.5":
+                    T.mul_(0.5)
+                elif ed == "undo":
+                    T.copy_(torch.tensor(base_theta))
+                if ed is not None:
+                    hist.append(ed)
+                tv, xv = T.numpy().astype(np.float64).copy(), X.numpy().astype(np.float64).copy()
+                out = lib(X, T)
+                got = out.detach().numpy().astype(np.float64)
+                case = {"kind": "shared_arguments", "op": kind, "N": N, "filter": filt, "history": list(hist), "edited": "theta"}
+                t.case(key=case, nontrivial=step > 0)
+                e = rel_err(got, ref(x0, tv))
+                if e > tol:
+                    t.fail({"relation": "call_answers_for_current_argument_values", "op": kind, "edited": "theta"}, case, f"{kind} N={N}: one theta tensor, history {hist}: result differs from scikit-image at the CURRENT angles {np.round(tv, 2).tolist()} by {e:.3e} of max")
+                    ok = False
+                if not (np.array_equal(T.numpy().astype(np.float64), tv) and np.array_equal(X.numpy().astype(np.float64), xv)):
+                    t.fail({"relation": "arguments_come_back_unmodified", "op": kind}, case, f"{kind} N={N}: the call modified its theta / data tensor in place (history {hist})")
+                    ok = False
+                for j, (o, c) in enumerate(kept):
+                    if not np.array_equal(o.detach().numpy(), c):
+                        t.fail({"relation": "kept_result_does_not_change", "op": kind}, case, f"{kind} N={N}: the result of call {j} changed after a later call (history {hist})")
+                        ok = False
+                kept.append((out, out.detach().numpy().copy()))
+                hist.append("call")
+                if not ok:
+                    break
+    # --- one data tensor, scaled / overwritten in place between calls
+    T = torch.tensor(base_theta.copy())
+    X = torch.tensor(x0, dtype=torch.float32)
+    x1 = make_image(("blob", 1), N, seed) if kind == "radon" else make_sino(("snoise", 1), N, IRREG, seed)
+    for step, ed in enumerate([None, "mul_2", "overwrite", "mul_2"]):
+        if ed == "mul_2":
+            X.mul_(2.0)
+        elif ed == "overwrite":
+            X.copy_(torch.tensor(x1, dtype=torch.float32))
+        case = {"kind": "shared_arguments", "op": kind, "N": N, "filter": filt, "history": step, "edited": "data"}
+        t.case(key=case, nontrivial=step > 0)
+        xv = X.numpy().astype(np.float64).copy()
+        e = rel_err(lib(X, T).detach().numpy().astype(np.float64), ref(xv, IRREG))
+        if e > tol:
+            t.fail({"relation": "call_answers_for_current_argument_values", "op": kind, "edited": "data"}, case, f"{kind} N={N}: one data tensor edited in place, step {step} ({ed}): result differs from scikit-image at the CURRENT values by {e:.3e} of max")
+    # --- re-entrant use through a lazy theta iterable
+    class Lazy:
+        def __init__(self, angles, at, hook):
+            self.angles, self.at, self.hook = angles, at, hook
+            self.shape = (len(angles),)  # looks like a 1-D tensor where the code only asks for the shape
+
+        def __len__(self):
+            return len(self.angles)
+
+        def __iter__(self):
+            for k, a in enumerate(self.angles):
+                if k == self.at:
+                    self.hook()
+                yield torch.tensor(float(a), dtype=torch.float32)
+
+    inner_specs = [("radon", N), ("radon", N + 1), ("iradon", N)]
+    for ik, iN in inner_specs:
+        for at in (1, len(IRREG) // 2, len(IRREG) - 1):
+            case = {"kind": "reentrant", "op": kind, "N": N, "filter": filt, "inner": [ik, iN], "at_angle": at}
+            xi = make_image(("blob", 2), iN, seed) if ik == "radon" else make_sino(("snoise", 2), iN, IRREG, seed)
+            box = {}
+
+            def hook():
+                Ti = torch.tensor(base_theta.copy())
+                Xi = torch.tensor(xi, dtype=torch.float32)
+                box["inner"] = (R.radon_torch(Xi, theta=Ti) if ik == "radon" else R.iradon_torch(Xi, theta=Ti, filter_name="ramp", circle=True)).detach().numpy().astype(np.float64)
+
+            try:
+                got = lib(torch.tensor(x0, dtype=torch.float32), Lazy(IRREG, at, hook)).detach().numpy().astype(np.float64)
+            except Exception as ex:  # noqa: BLE001 - a theta container the tree under test does not take: counted
+                t.extra[f"lazy_theta_rejected:{kind}:{type(ex).__name__}"] += 1
+                continue
+            t.case(key=case, nontrivial=True)
+            e = rel_err(got, ref(x0, IRREG))
+            ei = rel_err(box["inner"], _radon_ref(xi, IRREG) if ik == "radon" else _iradon_ref(xi, IRREG, "ramp")) if "inner" in box else np.inf
+            if e > tol or ei > (TOL if ik == "radon" else TOL_IRADON):
+                t.fail({"relation": "reentrant_call_does_not_disturb_the_running_call", "op": kind, "inner": ik, "same_shape": iN == N}, case, f"{kind} N={N} with a {ik} N={iN} call made while angle {at} was being fetched: outer result off by {e:.3e}, inner by {ei:.3e} of max (scikit-image reference)")
+    return t
+
+
 # ----------------------------------------------------------------------------- driver
 def run(ctx):
     q = ctx.quick
@@ -483,6 +606,8 @@ def run(ctx):
     ctx.pmap(w_iradon_basis, list(itertools.product(ir_basis, FILTERS)), chunk=1, label="iradon delta basis", seed=ctx.seed, quick=q)
     ctx.pmap(w_iradon_images, list(itertools.product(ir_sizes, FILTERS)), chunk=1, label="iradon images", seed=ctx.seed, quick=q)
     ctx.pmap(w_spellings, [5, 6] if q else [5, 6, 9, 22], chunk=1, label="alternative spellings", seed=ctx.seed)
+    sa = [("radon", 6), ("radon", 9), ("iradon", 6, "ramp"), ("iradon", 22, "hann")] if q else [("radon", n) for n in (6, 9, 22, 32, 33)] + [("iradon", n, f) for n in (6, 9, 22, 32, 33) for f in ("ramp", "hann", None)]
+    ctx.pmap(w_shared_arguments, sa, chunk=1, label="shared / in-place edited arguments, re-entrant calls", seed=ctx.seed)
     calls = _call_alphabet(q)
     ctx.coverage["bounds"]["call_history_alphabet"] = len(calls)
     ctx.coverage["bounds"]["call_history_depth"] = 2 if q else 3
@@ -517,6 +642,9 @@ def replay(ctx, case):
         print(f"  last call after the history: {'differs by %.3e' % e if e is not None else 'agrees'}; alone: {'differs by %.3e' % alone if alone is not None else 'agrees'}")
         if e is not None:
             t.fail({"relation": "result_independent_of_earlier_calls", "last_call": hist[-1][0]}, case, f"history {case['history']}: last call differs from the reference by {e:.3e}")
+    elif k in ("shared_arguments", "reentrant"):
+        r = w_shared_arguments((case["op"], case["N"]) + ((case["filter"],) if case["op"] == "iradon" else ()), seed=seed)
+        t.fails = [f for f in r.fails if all(f["case"].get(x) == case.get(x) for x in ("kind", "history", "edited", "inner", "at_angle"))]
     elif k == "spelling":
         r = w_spellings(case["N"], seed=seed)
         t.fails = [f for f in r.fails if f["case"].get("variant") == case["variant"]]
